@@ -37,6 +37,8 @@ type Scenario struct {
 	Findings    []Finding `json:"findings"`
 	Samples     []string  `json:"samples"`
 	WallS       float64   `json:"wall_s"`
+	Diverged    int64     `json:"prefixes_not_replayable"`
+	DivSample   string    `json:"divergence_sample"`
 }
 
 type Report struct {
@@ -108,7 +110,11 @@ func Apply(run *evid.Run, rep *Report, prop string, keep func(sig string) bool) 
 		}
 		run.Set("scenario:"+s.Name, map[string]interface{}{"schedules": s.Schedules, "scheduling_points": s.Points, "longest_schedule": s.Longest,
 			"preemption_bound_completed": s.BoundDone, "max_preemptions_taken": s.Preemptions, "distinct_outcomes": s.Outcomes,
-			"exhaustive_within_bound": s.Exhaustive, "points_pruned_by_state_key": s.Pruned, "wall_s": s.WallS})
+			"exhaustive_within_bound": s.Exhaustive, "points_pruned_by_state_key": s.Pruned, "wall_s": s.WallS,
+			"prefixes_not_replayable": s.Diverged, "divergence_sample": s.DivSample})
+		if s.Diverged > 0 {
+			fmt.Printf("WARNING scenario %s: %d schedule prefixes could not be replayed (nondeterminism outside the scheduler); their subtrees were not explored: %s\n", s.Name, s.Diverged, evid.Short(s.DivSample, 700))
+		}
 		for _, f := range s.Findings {
 			if strings.HasPrefix(f.Sig, "INFRA") {
 				evid.Infra("scenario %s: %s", s.Name, f.What)
